@@ -70,14 +70,4 @@ def outs (tbl : Table) : Nat → List Int → List ROut
 
 def run (tbl : Table) (s : Nat) (cs : List Int) : Nat := cs.foldl (fun s c => (update tbl s c).1) s
 
-/-- Table A.1 of the code as found (RESTRICTIVE from 60 %), kept for the `_witness` theorem -/
-def tableA1Old : Table :=
-  [⟨0, 0, 3000, 10000, 100⟩, ⟨1, 3000, 4000, 5000, 200⟩, ⟨2, 4000, 5000, 2500, 400⟩,
-   ⟨3, 5000, 6000, 2000, 500⟩, ⟨4, 6000, 10100, 1000, 1000⟩]
-
-/-- Table A.1 repaired (RESTRICTIVE above 65 % as in Annex A) -/
-def tableA1Fixed : Table :=
-  [⟨0, 0, 3000, 10000, 100⟩, ⟨1, 3000, 4000, 5000, 200⟩, ⟨2, 4000, 5000, 2500, 400⟩,
-   ⟨3, 5000, 6500, 2000, 500⟩, ⟨4, 6500, 10100, 1000, 1000⟩]
-
 end FlexModel.Dcc
